@@ -475,7 +475,6 @@ fn command_class(c: &[Vec<u8>]) -> Option<&'static str> {
         b"DBSIZE" | b"FLUSHDB" | b"FLUSHALL" | b"RANDOMKEY" => Some("lua-arity-unchecked"),
         b"XRANGE" | b"XREVRANGE" if c.len() != 4 && c.len() != 6 => Some("lua-stream-options"),
         b"XTRIM" if c.len() != 4 => Some("lua-stream-options"),
-        b"XADD" => Some("lua-stream-options"),
         _ => None,
     }
 }
